@@ -49,7 +49,11 @@ public:
   int link_file(const char *filename);
   int link();
 
-  void set_org(uint32_t value) { address = value * bytes_per_address; }
+  void set_org(uint32_t value)
+  {
+    address = value * bytes_per_address;
+    address_wrapped = false;
+  }
   //uint32_t get_low_address()  { return memory.low_address / bytes_per_address; }
   //uint32_t get_high_address() { return memory.high_address / bytes_per_address; }
 
@@ -77,7 +81,23 @@ public:
 
   void memory_write_inc(uint8_t data, int line)
   {
+    // Nothing can be placed behind the byte at 0xffffffff: the location
+    // counter would wrap around to 0.
+    if (address_wrapped)
+    {
+      if (error == false)
+      {
+        printf("Error: Address is beyond 0xffffffff at %s:%d\n",
+          tokens.filename, tokens.line);
+      }
+
+      error = true;
+      return;
+    }
+
     memory.write(address++, data, line);
+
+    if (address == 0) { address_wrapped = true; }
   }
 
   Memory memory;
@@ -123,6 +143,7 @@ public:
   bool optimize               : 1;
   bool ignore_number_postfix  : 1;
   bool in_repeat              : 1;
+  bool address_wrapped        : 1;
   uint32_t flags;
   uint32_t extra_context;
 };
